@@ -39,12 +39,12 @@ type UpstreamConn struct {
 
 // WSUpstream is a graphql-ws upstream bound to a fake service.
 type WSUpstream struct {
-	Svc      *Service
-	Addr     string
-	ln       net.Listener
-	srv      *http.Server
-	mu       sync.Mutex
-	Conns    []*UpstreamConn
+	Svc   *Service
+	Addr  string
+	ln    net.Listener
+	srv   *http.Server
+	mu    sync.Mutex
+	Conns []*UpstreamConn
 	// Script returns the events to play for a start message (by marker).
 	Script func(marker string, req *engine.Request) []SubEvent
 	// Refuse makes the upstream refuse the websocket upgrade.
